@@ -40,7 +40,16 @@ func Parse(patchFileName string, src []byte) (*File, error) {
 }
 
 // Apply takes the Go file name and its contents and returns a Go file with the patch applied.
-func (f *File) Apply(filename string, src []byte) ([]byte, error) {
+func (f *File) Apply(filename string, src []byte) (_ []byte, err error) {
+	// A patch that fits a file badly can make the engine build a tree
+	// that later steps cannot handle. Report that as an error rather than
+	// crashing the caller.
+	defer func() {
+		if p := recover(); p != nil {
+			err = fmt.Errorf("could not update %q: %v", filename, p)
+		}
+	}()
+
 	vhook.Gate("parse")
 	base, err := parser.ParseFile(f.fset, filename, src, parser.AllErrors|parser.ParseComments)
 	if err != nil {
